@@ -10,6 +10,10 @@ package main
 // fVerifReal and a forwarder with the original signature calls the stub
 // (receiver first). /repo itself is not touched. Without the second line the
 // native run calls the real function (the default for environment stubs).
+// file.go is relative to the harness's package directory; if it belongs to
+// another package (e.g. casper/casper.go) the forwarder calls an exported
+// hook variable VerifHook<F> added to that file, and a generated test file of
+// the harness package sets the hook to the stub in an init().
 
 import (
 	"fmt"
@@ -26,6 +30,8 @@ import (
 func nativeCuts(files []*HarnessFile, dir string, tmp string) (map[string]string, error) {
 	out := map[string]string{}
 	srcs := map[string][]byte{} // repo file -> current (possibly already rewritten) text
+	var hooks [][3]string       // import path, hook variable, stub
+	hookPkg := ""
 	for _, hf := range files {
 		if hf.Dir != dir {
 			continue
@@ -52,12 +58,43 @@ func nativeCuts(files []*HarnessFile, dir string, tmp string) (map[string]string
 				}
 				src = b
 			}
-			nsrc, err := cutFunction(path, src, lhs[1], stub)
+			// a function of ANOTHER package (path leaves the package dir) cannot call the
+			// harness stub directly: it forwards to an exported hook variable which a
+			// generated init() of the harness package sets to the stub
+			otherDir := filepath.Dir(filepath.Clean(filepath.Join(dir, lhs[0])))
+			hook := ""
+			if otherDir != filepath.Clean(dir) {
+				hook = "VerifHook" + strings.ToUpper(lhs[1][:1]) + lhs[1][1:]
+				imp, err := importPathOf(otherDir)
+				if err != nil {
+					return nil, err
+				}
+				hooks = append(hooks, [3]string{imp, hook, stub})
+				hookPkg = hf.PkgName
+			}
+			nsrc, err := cutFunction(path, src, lhs[1], stub, hook)
 			if err != nil {
 				return nil, err
 			}
 			srcs[path] = nsrc
 		}
+	}
+	if len(hooks) > 0 {
+		var sb strings.Builder
+		fmt.Fprintf(&sb, "package %s\n\nimport (\n", hookPkg)
+		for k, h := range hooks {
+			fmt.Fprintf(&sb, "\tverifcut%d %q\n", k, h[0])
+		}
+		sb.WriteString(")\n\nfunc init() {\n")
+		for k, h := range hooks {
+			fmt.Fprintf(&sb, "\tverifcut%d.%s = %s\n", k, h[1], h[2])
+		}
+		sb.WriteString("}\n")
+		f := filepath.Join(tmp, "zz_verif_cuthooks_test.go")
+		if err := os.WriteFile(f, []byte(sb.String()), 0644); err != nil {
+			return nil, err
+		}
+		out[filepath.Join(repoRoot, dir, "zz_verif_cuthooks_test.go")] = f
 	}
 	i := 0
 	for path, src := range srcs {
@@ -71,7 +108,7 @@ func nativeCuts(files []*HarnessFile, dir string, tmp string) (map[string]string
 	return out, nil
 }
 
-func cutFunction(path string, src []byte, name, stub string) ([]byte, error) {
+func cutFunction(path string, src []byte, name, stub, hook string) ([]byte, error) {
 	fset := token.NewFileSet()
 	f, err := parser.ParseFile(fset, path, src, 0)
 	if err != nil {
@@ -114,6 +151,22 @@ func cutFunction(path string, src []byte, name, stub string) ([]byte, error) {
 		sb.Write(src[:off(fd.Name.Pos())])
 		sb.WriteString(name + "VerifReal")
 		sb.Write(src[off(fd.Name.End()):])
+		if hook != "" {
+			// var VerifHookF func(recv T, params...) results
+			ftype := "func("
+			if fd.Recv != nil {
+				ftype += string(src[off(fd.Recv.List[0].Pos()):off(fd.Recv.List[0].End())])
+				if len(fd.Type.Params.List) > 0 {
+					ftype += ", "
+				}
+			}
+			ftype += string(src[off(fd.Type.Params.Opening)+1:off(fd.Type.Params.Closing)]) + ")"
+			if fd.Type.Results != nil && len(fd.Type.Results.List) > 0 {
+				ftype += " " + string(src[off(fd.Type.Results.Pos()):off(fd.Type.Results.End())])
+			}
+			fmt.Fprintf(&sb, "\n// verif: hook set by the harness package (native counterpart of a declared cut)\nvar %s %s\n", hook, ftype)
+			stub = hook
+		}
 		fmt.Fprintf(&sb, "\n// verif: native counterpart of the declared cut of %s\n%s{ %s%s(%s) }\n", name, sig, ret, stub, strings.Join(args, ", "))
 		return []byte(sb.String()), nil
 	}
@@ -149,3 +202,18 @@ func constHashOut(in *Interp, kind string, input []*Term, outBytes int) []*Term 
 }
 
 var noConstHash = os.Getenv("VERIF_NOCONSTHASH") != ""
+
+// importPathOf: import path of the package in dir (relative to the repo root)
+func importPathOf(dir string) (string, error) {
+	b, err := os.ReadFile(filepath.Join(repoRoot, "go.mod"))
+	if err != nil {
+		return "", err
+	}
+	for _, l := range strings.Split(string(b), "\n") {
+		f := strings.Fields(l)
+		if len(f) == 2 && f[0] == "module" {
+			return f[1] + "/" + filepath.ToSlash(dir), nil
+		}
+	}
+	return "", fmt.Errorf("module path not found in go.mod")
+}
